@@ -254,3 +254,24 @@ def expr_ops(e, acc=None):
         if isinstance(x, tuple):
             expr_ops(x, acc)
     return acc
+
+
+# ------------------------------------------------------------------ real value -> spec
+
+def spec_ty(t):
+    return [(x.name, getattr(x, "z", 0)) for x in t.objects]
+
+
+def spec_box(b):
+    from common import box_kind
+    k = box_kind(b)
+    if k == "g":
+        return dict(kind="g", name=b.name, dom=spec_ty(b.dom), cod=spec_ty(b.cod),
+                    dagger=bool(b.is_dagger), data=b.data)
+    return dict(kind=k, name=None, dom=spec_ty(b.dom), cod=spec_ty(b.cod), dagger=False, data=None)
+
+
+def spec_diagram(d):
+    """`mk` expression rebuilding a real diagram through the scanning constructor."""
+    return ("mk", spec_ty(d.dom), spec_ty(d.cod), [spec_box(b) for b in d.boxes],
+            [int(o) for o in d.offsets])
